@@ -269,6 +269,25 @@ def build_templates():
                                     "ufr:" + n, "ufunc_out")
                 TT["ufat:" + n] = T((lambda uf: lambda A, p: uf.at(A["x"], p["idx"], A["y"]))(uf), ("x", "y"), "x",
                                     None, "ufunc_at", ("idx",))
+    # out= together with where=: the elements the mask does not select keep the numbers they had
+    def _mask(o):
+        m = np.zeros(np.shape(o), dtype=bool)
+        m.flat[::2] = True
+        return m
+
+    for uf in (np.add, np.subtract, np.multiply, np.divide, np.maximum):
+        n = uf.__name__
+
+        def _exp(A, p, uf=uf):
+            res = uf(A["x"], A["y"])
+            m = _mask(A["o"])
+            keep = np.asarray(A["o"]).astype(np.asarray(res).dtype if np.asarray(res).dtype.kind in "fc" else "float64")
+            e = np.where(m, np.asarray(res), keep)
+            return unyt.unyt_array(e, res.units) if e.shape != () else unyt.unyt_quantity(e, res.units)
+
+        TT["ufw_expected:" + n] = T(_exp, ("x", "y", "o"), cat="copy")
+        TT["ufw:" + n] = T((lambda uf: lambda A, p: uf(A["x"], A["y"], out=A["o"], where=_mask(A["o"])))(uf), ("x", "y", "o"), "o",
+                           "ufw_expected:" + n, "ufunc_out")
     # array functions
     TT["np.concatenate"] = T(lambda A, p: np.concatenate([A["x"], A["y"]]), ("x", "y"), cat="func")
     TT["np.concatenate_out"] = T(lambda A, p: np.concatenate([A["x"], A["y"]], out=A["o"]), ("x", "y", "o"), "o",
@@ -1293,6 +1312,8 @@ def sweep_templates():
         if not t.target:
             continue
         if t.cat in ("iconv", "iop", "ifunc"):
+            names.append(n)
+        elif t.cat == "ufunc_out" and n.split(":")[0] == "ufw":
             names.append(n)
         elif t.cat == "ufunc_out" and n.split(":")[0] in ("ufo",) and n.split(":")[1] in (
                 "add", "subtract", "multiply", "divide", "true_divide", "floor_divide", "maximum", "minimum", "hypot",
